@@ -746,6 +746,8 @@ func checkNotification(c *core.Ctx, rule string, lib []*ssa.Function) {
 				ob.Fail("the forwarder goroutine waits in StopWithError while the handler loop may be waiting for the writer or for it")
 			case calls(body, isConnServe) && !wrapsConnClosed(body):
 				ob.Fail("the read error handed to the handler is not wrapped with ErrConnClosed (%%w): Run would not raise the disconnect event")
+			case calls(body, isConnServe) && !wrapDominates(body, fn, in):
+				ob.Fail("the read error is wrapped with ErrConnClosed only on some paths to this StopWithError: a read failure of another kind (a reset, a timeout) ends the connection without the disconnect event, and without the stopped event either")
 			default:
 				ob.Ok("a goroutine that neither runs the loop, writes the socket nor forwards input")
 			}
@@ -990,4 +992,46 @@ func checkTimerRoutines(c *core.Ctx, s *sess, rule string) {
 			c.Check(closes, rule, an.NameOf(g), "releases its timer when it ends", g.Pos(), "defer timer.Close()", "the timer is not closed when the goroutine ends")
 		}
 	}
+}
+
+// wrapDominates: in the goroutine body, the fmt.Errorf("…%w…", …, ErrConnClosed) call dominates the StopWithError site — directly,
+// or the instruction that creates the function literal containing the site (a deferred or once-guarded report).
+func wrapDominates(body, siteFn *ssa.Function, site ssa.Instruction) bool {
+	var wrap *ssa.Call
+	an.AllInstrs(body, func(i2 ssa.Instruction) {
+		if call, ok := i2.(*ssa.Call); ok && an.CalleeIs(&call.Call, "fmt", "Errorf") {
+			if f, ok := an.ConstString(call.Call.Args[0]); ok && strings.Contains(f, "%w") {
+				if elems, ok := an.SliceElems(call.Call.Args[1]); ok {
+					for _, e := range elems {
+						if strings.HasSuffix(an.Render(e), "ErrConnClosed") {
+							wrap = call
+						}
+					}
+				}
+			}
+		}
+	})
+	if wrap == nil {
+		return false
+	}
+	// climb from the site to the instruction of body that leads to it
+	at := site
+	f := siteFn
+	for f != body {
+		parent := f.Parent()
+		if parent == nil {
+			return false
+		}
+		var mk ssa.Instruction
+		an.AllInstrs(parent, func(i2 ssa.Instruction) {
+			if mc, ok := i2.(*ssa.MakeClosure); ok && mc.Fn == ssa.Value(f) {
+				mk = mc
+			}
+		})
+		if mk == nil {
+			return false
+		}
+		at, f = mk, parent
+	}
+	return an.Dominates(wrap, at)
 }
